@@ -107,7 +107,42 @@ var authKinds = []string{
 	"wrong-user-edit", "wrong-pass-edit", "wrong-user", "wrong-pass", "pass-prefix", "pass-suffix", "user-prefix",
 	"empty-pass", "empty-user", "extra-colon", "no-colon", "swapped", "scheme-case", "cred-case",
 	"other-scheme", "no-scheme", "scheme-only", "bad-base64", "token-edit", "unpadded", "urlsafe",
-	"spacing", "header-edit", "random",
+	"spacing", "header-edit", "random", "resplit", "resplit", "resplit-swapped", "colon-moved",
+}
+
+// Resplits returns every "u:p" with u+p == whole, split anywhere (the separator at
+// position k), except the split at skip (the genuine one; -1 = none to skip). A comparison
+// of user+password without the separator (a digest of the concatenation, say) accepts them.
+func Resplits(whole string, skip int) []string {
+	var out []string
+	for k := 0; k <= len(whole); k++ {
+		if k != skip {
+			out = append(out, whole[:k]+":"+whole[k:])
+		}
+	}
+	return out
+}
+
+// ColonMoves returns the strings obtained from login:password by taking one colon out and
+// putting it back somewhere else (same characters, one colon moved).
+func ColonMoves(login, pass string) []string {
+	c := login + ":" + pass
+	seen := map[string]bool{c: true}
+	var out []string
+	for i := 0; i < len(c); i++ {
+		if c[i] != ':' {
+			continue
+		}
+		rest := c[:i] + c[i+1:]
+		for j := 0; j <= len(rest); j++ {
+			v := rest[:j] + ":" + rest[j:]
+			if !seen[v] {
+				seen[v] = true
+				out = append(out, v)
+			}
+		}
+	}
+	return out
 }
 
 var junkSamples = []string{"!", "*", ",", ", Bearer x", " ", "  x", "=", "==", "====", "\t", "-", "_", "%3D", ".", "\"", "AAAA!", "A", "AA", "QUJD", "é"}
@@ -157,6 +192,18 @@ func genAuth(rt *rapid.T, login, pass string) (has bool, hdr string, kind string
 		hdr = "Basic " + b64([]string{login + pass, login, pass, login + " " + pass, login + ";" + pass}[pick("which", 4)])
 	case "swapped":
 		hdr = "Basic " + b64(pass+":"+login)
+	case "resplit": // the concatenation login+password cut at another place
+		rs := Resplits(login+pass, len(login))
+		hdr = "Basic " + b64(rs[pick("split", len(rs)-1)])
+	case "resplit-swapped": // the concatenation password+login cut anywhere
+		rs := Resplits(pass+login, -1)
+		hdr = "Basic " + b64(rs[pick("split", len(rs)-1)])
+	case "colon-moved":
+		cm := ColonMoves(login, pass)
+		if len(cm) == 0 {
+			cm = Resplits(login+pass, len(login))
+		}
+		hdr = "Basic " + b64(cm[pick("move", len(cm)-1)])
 	case "scheme-case":
 		hdr = []string{"basic ", "BASIC ", "bAsIc ", "Basic\t", "BasiC "}[pick("which", 4)] + tok
 	case "cred-case":
@@ -257,6 +304,9 @@ func genReq(rt *rapid.T, s Settings) Req {
 		).Draw(rt, "odd-path")
 		q.Method = rapid.SampledFrom(allMethods).Draw(rt, "any-method")
 	}
+	if s.Prefix != "" && rapid.IntRange(0, 3).Draw(rt, "under-prefix") == 0 {
+		q.Path = s.Prefix + q.Path // where a main() honouring api_prefix would mount it
+	}
 	q.HasAuth, _, q.AuthKind = false, "", ""
 	has, hdr, kind := genAuth(rt, s.Login, s.Password)
 	q.HasAuth, q.Auth, q.AuthKind = has, evid.Str(hdr), kind
@@ -275,7 +325,7 @@ func genReq(rt *rapid.T, s Settings) Req {
 		q.CT = rapid.SampledFrom([]string{"", "application/json", "application/x-protobuf", "text/plain"}).Draw(rt, "ct")
 		q.Body = rapid.SampledFrom([]string{"", "{}", "x", "{\"streams\":[]}"}).Draw(rt, "body")
 	}
-	if strings.HasPrefix(q.Path, "/api/v2/search/tag") {
+	if strings.Contains(q.Path, "/api/v2/search/tag") {
 		// TempoController.ValuesV2 / TagsV2 range over a nil channel - for ever - when the
 		// database is unreachable and no start/end is given (tempoController.go:259-271: the
 		// error of Service.Values is not looked at). Behind the credentials, not C20's
@@ -297,6 +347,7 @@ func genSettings(rt *rapid.T) Settings {
 		Password: genCredential(rt, "password", true),
 		Mode:     rapid.SampledFrom([]string{"all", "all", "", "writer", "reader", "other"}).Draw(rt, "mode"),
 	}
+	s.Prefix = rapid.SampledFrom([]string{"", "", "/qryn", "/a/b"}).Draw(rt, "api-prefix")
 	if rapid.Bool().Draw(rt, "cors") {
 		s.Cors = true
 		s.Origin = rapid.SampledFrom(corsOrigins).Draw(rt, "cors-origin")
